@@ -23,6 +23,14 @@ def main(argv=None):
     if args.replay:
         with open(args.replay) as f:
             rec = json.load(f)
+        if rec.get("kind") == "unit_crash":
+            # a whole work unit died inside the library: replayed by running the check restricted to that unit's key
+            os.environ["VERIF_ONLY"] = rec.get("key", "")
+            os.environ["VERIF_OUT"] = os.environ.get("VERIF_OUT") or "/tmp/verif_replay_out"
+            importlib.reload(importlib.import_module("mc.core"))
+            mod = importlib.reload(mod)
+            rc = mod.main("quick")
+            return 1 if rc else 0
         reproduced, text = mod.replay(rec)
         print(text)
         if reproduced:
